@@ -86,6 +86,8 @@ func (g *Gen) freshParams(n int) []string {
 		case g.R.Chance(1, 25):
 			ps[i] = g.R.Pick(shadowNames) // shadows a global function (value position only)
 			g.feat("shadow-global")
+		case len(g.env) > 0 && g.R.Chance(1, 5):
+			ps[i] = g.env[g.R.Intn(len(g.env))].name // shadows an enclosing parameter
 		case g.R.Chance(1, 3):
 			ps[i] = g.R.Pick(paramNames) // may shadow an enclosing parameter
 		default:
@@ -213,6 +215,10 @@ func (g *Gen) builtinsOfType(t *Ty) (out []string) {
 		return true
 	}
 	switch len(t.Args) {
+	case 0:
+		if t.Ret.K == TInt {
+			out = append(out, "zero")
+		}
 	case 1:
 		a := t.Args[0]
 		if a.K == TPair && a.A.eq(t.Ret) {
@@ -303,6 +309,10 @@ func (g *Gen) intro(t *Ty, depth int) *Node {
 	case TInt:
 		switch g.R.Intn(5) {
 		case 0:
+			if g.R.Chance(1, 4) {
+				g.feat("zero")
+				return C(S("zero")) // a complete call without arguments
+			}
 			return g.intLit()
 		case 1:
 			return C(S("mix"), g.Expr(tInt, depth-1), g.Expr(tInt, depth-1), g.Expr(tInt, depth-1))
@@ -347,7 +357,7 @@ func (g *Gen) fnIntro(t *Ty, depth int) *Node {
 	case len(bs) > 0 && k < 2:
 		g.feat("fn-symbol")
 		return S(g.R.Pick(bs))
-	case len(bs) > 0 && k < 3:
+	case len(bs) > 0 && k < 3 && len(t.Args) > 0:
 		g.feat("noarg-call")
 		return C(S(g.R.Pick(bs))) // (add): a call with no arguments of a function that wants some
 	case k < 5 && len(t.Args) < 3:
